@@ -66,6 +66,11 @@ class _FragGen:
 
     def const(self):
         r = self.r
+        if r.random() < 0.06 and self.kind in ("int", "float"):
+            # numpy scalars are constants as well
+            if self.kind == "int":
+                return ["np", "int64", repr(r.choice([1, 2, 3, 6, -2]))]
+            return ["np", "float64", repr(r.choice([0.5, 1.5, 2.0, -0.75, 3.25]))]
         if self.kind == "int":
             return ["i", r.choice([0, 1, 2, 3, 4, 5, 7, 9, -1, -2, -3])]
         if self.kind == "mixed":
@@ -344,9 +349,10 @@ def ctype_obj(e, p, var="int"):
     C type `var`, or None if C and the evaluator would not mean the same thing (int / int is
     an integer division in C, // and % are for integers only; note that the C mapper prints
     x**0 as the int literal 1 whatever x is)."""
-    if isinstance(e, bool) or isinstance(e, int):
+    import numpy as np
+    if isinstance(e, (bool, int, np.integer)):
         return "int"
-    if isinstance(e, float):
+    if isinstance(e, (float, np.floating)):
         return "float"
     if not isinstance(e, p.Expression):
         return None
@@ -406,8 +412,13 @@ def _make_ref_evaluator():
 
         def __call__(self, expr, *a):
             v = EvaluationMapper.__call__(self, expr, *a)
-            if isinstance(v, bool):
+            import numpy as np
+            if isinstance(v, (bool, np.bool_)):
                 return v
+            if isinstance(v, np.integer):
+                v = int(v)
+            elif isinstance(v, np.floating):
+                v = float(v)
             if isinstance(v, int) and abs(v) > 2**40:
                 self.bad.append("int-range")
             elif isinstance(v, float) and not (abs(v) < 1e12):
